@@ -222,8 +222,8 @@ def render_env(env: typing.Any, src: str, ctxs: typing.Sequence[typing.Mapping[s
     mk = getattr(env, "c19_markup", None)
     for c in ctxs:
         COUNT["renders"] += 1
-        if mk is not None and isinstance(c.get("mk"), MarkupSpec):
-            c = dict(c, mk=mk(c["mk"].text))
+        if mk is not None and any(isinstance(v, MarkupSpec) for v in c.values()):
+            c = {k: (mk(v.text) if isinstance(v, MarkupSpec) else v) for k, v in c.items()}
         try:
             out.append(("ok", t.render(**c)))
         except Exception as e:  # pylint: disable=broad-except
